@@ -422,7 +422,7 @@ pub fn addsub_pair(max_len: usize) -> BoxedStrategy<(Vec<u64>, Vec<u64>)> {
 
 /// big add/sub pairs (thorough): lengths to `max_len`, deterministic expansion
 pub fn addsub_pair_big(max_len: usize) -> BoxedStrategy<(Vec<u64>, Vec<u64>)> {
-    let lens: Vec<usize> = vec![41, 50, 64, 99, 100, 101, 128, 255, 256, 300, 499, 500, 501, 600]
+    let lens: Vec<usize> = vec![41, 50, 64, 99, 100, 101, 128, 255, 256, 300, 499, 500, 501, 600, 1000, 2047, 2048, 4999, 5000]
         .into_iter()
         .filter(|l| *l <= max_len)
         .collect();
